@@ -17,10 +17,9 @@ VARIABLE l
 vars == <<l>>
 Judge(ev) ==
     LET wt == WellTyped(ev.prog)
-    IN  IF ev.base
-        THEN (IF wt /\ ~ev.accepted THEN <<"well_typed_program_rejected">> ELSE <<>>)
-        ELSE IF ~wt /\ ev.panic THEN <<"checker_panics_on_ill_typed_program">>
+    IN  IF ~wt /\ ev.panic THEN <<"checker_panics_on_ill_typed_program">>
         ELSE IF ~wt /\ ev.accepted /\ ev.roundtrip THEN <<"ill_typed_program_accepted">>
+        ELSE IF wt /\ ~ev.accepted /\ ev.base THEN <<"well_typed_program_rejected">>     \* base: a program that must be accepted if it is well-typed
         ELSE <<>>
 Init == l = 1
 Next == /\ l <= Len(Rec)
